@@ -12,6 +12,10 @@ fn main() {
             json::child_load(&raw[2]);
             return;
         }
+        Some("load-files") => {
+            json::child_load_files(&raw[2..]);
+            return;
+        }
         Some("probe-emit") => {
             vh_common::silence_panics();
             emit::probe(raw.get(2).and_then(|s| s.parse().ok()).unwrap_or(1), raw.get(3).and_then(|s| s.parse().ok()).unwrap_or(2000));
